@@ -295,5 +295,29 @@ theorem read_after_write (s s1 s2 : St) (c c' : Ctx) (wargs rargs : Bytes) (w : 
   rw [hdata, Fs.slice_writeBytes_self e0.data off data hdne]
   exact ⟨rfl, by rw [hcnt, hdata, Fs.slice_writeBytes_self e0.data off data hdne]⟩
 
+/-- SETATTR with a sattrguard3 (the model refuses every guard: the harness only sends ctimes the object does not have)
+    leaves the backend untouched and does not answer NFS3_OK -/
+theorem procSetattr_guarded (s : St) (c : Ctx) (args : Bytes) (h : Nat) (r1 r2 r3 : Bytes) (sa : Sattr3) (guard : Nat)
+    (h1 : decFh' s args = some (h, r1)) (h2 : decSattr3 r1 = some (sa, r2)) (h3 : decU32 r2 = some (guard, r3))
+    (hg : guard ≠ 0) :
+    (procSetattr s c args).1.fs = s.fs ∧ ∃ st b, (procSetattr s c args).2 = res st b ∧ st ≠ 0 := by
+  unfold procSetattr
+  split
+  · exact ⟨rfl, 30, _, rfl, by decide⟩
+  · rw [h1]
+    simp only [h2, h3]
+    split
+    · exact ⟨rfl, 4, _, rfl, by decide⟩
+    · split
+      · exact ⟨rfl, 22, _, rfl, by decide⟩
+      · split
+        · exact ⟨rfl, 70, _, rfl, by decide⟩
+        · rename_i n hn
+          split
+          · rename_i s1 st hga
+            exact ⟨getAttr_fs' hga, _, _, rfl, mapErrno_ne_zero st⟩
+          · rename_i s1 pre hga
+            exact ⟨getAttr_fs' hga, 10002, _, rfl, by decide⟩
+
 end Server
 end Absnfs
